@@ -308,8 +308,12 @@ def check_diagram(spec, left, interp_spec, labels):
     try:
         nf = d.normal_form(left=left)
     except NotImplementedError:
-        require(repeated or not conn, "C07:NotImplementedError-on-connected",
-                lambda: "{} (snake-free form {})".format(d, last))
+        # the only exception allowed, and only for disconnected diagrams:
+        # a trace that cycles on a connected diagram is the same failure
+        require(not conn or not specs.connected(
+            len(spec["dom"]), arity_list(d)),
+            "C07:NotImplementedError-on-connected",
+            lambda: "{} (snake-free form {})".format(d, last))
         require(not removable_snakes(last),
                 "C07:gave-up-before-removing-snakes", lambda: str(last))
         return dict(nt=False, labels=labels + ["NotImplementedError"])
